@@ -35,8 +35,9 @@ annotation invariant with empty annotations, and its cached ancestor groups form
 theorem connected_annInv (tops : List BOp) (o o' : Onto) (hrun : runB tops {} = some o)
     (hac : Acyclic o) (hc : o.connectAll = .ok o') :
     AnnInv (ancOf o') (present o') o' ∧
-    ∃ rank : Nat → Nat, AncClosure (ancOf o') (present o') rank ∧
-      ∀ j, rank j < o'.terms.length + 2 := by
+    (∃ rank : Nat → Nat, AncClosure (ancOf o') (present o') rank ∧
+      ∀ j, rank j < o'.terms.length + 2) ∧
+    (∀ k r, hposOf k o' r = []) ∧ (∀ k j, annOf k o'.terms j = []) := by
   obtain ⟨hpre, hrest0⟩ := preInv_run tops {} o preInv_nil hrun
   obtain ⟨o'', hc', hrest, hupd, hex, hsorted⟩ := C01_connect o hpre hac
   rw [hc] at hc'; cases hc'
@@ -49,7 +50,7 @@ theorem connected_annInv (tops : List BOp) (o o' : Onto) (hrun : runB tops {} = 
     intro k; rw [hrest, hrest0]; cases k <;> rfl
   have hhp : ∀ k r, hposOf k o' r = [] := by intro k r; simp [hposOf, hrecs, getR]
   have hpres : ∀ j, (getT o'.terms j).isSome = (getT o.terms j).isSome := hupd.isSome
-  refine ⟨⟨fun _ => rfl, fun _ => Iff.rfl, ?_, ?_, ?_, ?_, ?_⟩, ?_⟩
+  refine ⟨⟨fun _ => rfl, fun _ => Iff.rfl, ?_, ?_, ?_, ?_, ?_⟩, ?_, hhp, hann⟩
   · intro j hj; rw [hpres] at hj; exact hpre.small j hj
   · intro k j; rw [hann]; exact sorted_nil
   · intro k x r; rw [hann, hhp]; simp
@@ -114,7 +115,7 @@ theorem C02_inherited_iff (tops : List BOp) (o oc : Onto) (hrun : runB tops {} =
     (hac : Acyclic o) (hc : o.connectAll = .ok oc) (ops : List AOp) (k : Kind) (x r : Nat) :
     r ∈ annOf k (runA ops oc).terms x ↔
       ∃ d, d ∈ hposOf k (runA ops oc) r ∧ (d = x ∨ x ∈ ancOf oc d) := by
-  obtain ⟨hinv, rank, hcl, hf⟩ := connected_annInv tops o oc hrun hac hc
+  obtain ⟨hinv, ⟨rank, hcl, hf⟩, _, _⟩ := connected_annInv tops o oc hrun hac hc
   have := (C02_history _ _ rank hcl ops oc hinv hf).1.linked k x r
   simpa [Up, eq_comm] using this
 
@@ -124,7 +125,7 @@ theorem C02_resolves (tops : List BOp) (o oc : Onto) (hrun : runB tops {} = some
     (hac : Acyclic o) (hc : o.connectAll = .ok oc) (ops : List AOp) (k : Kind) :
     (∀ x r, r ∈ annOf k (runA ops oc).terms x → (getR ((runA ops oc).recs k) r).isSome) ∧
     (∀ r d, d ∈ hposOf k (runA ops oc) r → (getT (runA ops oc).terms d).isSome) := by
-  obtain ⟨hinv, rank, hcl, hf⟩ := connected_annInv tops o oc hrun hac hc
+  obtain ⟨hinv, ⟨rank, hcl, hf⟩, _, _⟩ := connected_annInv tops o oc hrun hac hc
   have H := (C02_history _ _ rank hcl ops oc hinv hf).1
   constructor
   · intro x r hr
